@@ -152,9 +152,11 @@ func removeAll(fs afero.Fs, name string) error {
 
 // notExist reports whether err means that the path names nothing: the file is
 // missing, or (on a real file system, ENOTDIR) one of its parent directories
-// is a file - the object of a key that is a path prefix of the one asked for.
+// is a file - the object of a key that is a path prefix of the one asked for -
+// or (ENAMETOOLONG) a segment is longer than any file name, so that no object
+// can ever have been stored under that key.
 func notExist(err error) bool {
-	return os.IsNotExist(err) || errors.Is(err, syscall.ENOTDIR)
+	return os.IsNotExist(err) || errors.Is(err, syscall.ENOTDIR) || errors.Is(err, syscall.ENAMETOOLONG)
 }
 
 // errUnsupportedKey is returned for keys the filesystem layout cannot hold.
